@@ -1,6 +1,7 @@
 """C04 - Keccak sponge, SHA-3 and SHAKE equal FIPS 202 / the Keccak reference for every input and configuration."""
 import hashlib
 from mc.engine import Sub, HSystem, hsub, InternalError
+from mc.checks.firstuse import firstuse_sub
 from mc.common import ramp, expander
 from mc.refs import keccak as RK
 
@@ -341,8 +342,24 @@ def selftest():
         raise InternalError('reference self-test failed: %r' % (e,))
 
 
+PROP_ = 'C04'
+
+
+def fu_targets():
+    import hashlib
+    from crysp.keccak import Keccak
+    from crysp.sha import SHA3
+    import crysp.keccak as KE
+    m = expander(150, 3)
+    t = {'sha3_%d' % n: ((lambda n: lambda: SHA3(n)(m))(n), hashlib.new('sha3_%d' % n, m).digest()) for n in (224, 256, 384, 512)}
+    t['keccak b=200 r=40 bitlen'] = (lambda: Keccak(b=200, r=40, len=64)(m, bitlen=1197), RK.keccak(200, 40, m, 1197, 64, nist=True))
+    t['keccak r=1027 bitlen'] = (lambda: Keccak(r=1027, c=573, len=200)(m, bitlen=1003), RK.keccak(1600, 1027, m, 1003, 200, nist=True))
+    t['keccak_256 module instance'] = (lambda: KE.keccak_256(m), RK.keccak(1600, 1088, m, 8 * len(m), 256, nist=False))
+    return t
+
+
 def subchecks():
-    return [
+    return [firstuse_sub(PROP_, fu_targets, every=2),
         Sub('lengths', pts_len, run_len, engine='P',
             bound='width b in {25..1600} x every rate 1..b-1 for b<=400 and every 5th rate for b=800 in thorough (quick b<=50; else a list of 2-3 rates per width; thorough: 19 named rates incl. 1027,1536) x both bit orders x every bit length 0..2r+2 (r<=64) or every residue {0,1,2,7,8,9,r-9..r-1} over 0..2 full blocks x 2 data patterns; output r+1 bits (two squeezes); byte call and bitlen call'),
         Sub('output-lengths', pts_out, run_out, engine='P', bound='d in {1,8,r-1,r,r+1,2r+3,3r} at L in {0,r-2,r+5} for the (b,r) above'),
